@@ -108,13 +108,15 @@ def build_texts(tier):
     if tier == "quick":
         texts += F.f_mem((2,), deltas=[0, 1, 31, 32, 33])
         texts += F.f_mem((3,), deltas=[0, 16], ops=("MSTORE", "MLOAD", "MSTORE8"))
+        texts += F.f_mem_byte_in_word()[::2]
         texts += F.f_mem((2,), deltas=[0, 32], mixed=True)
         texts += F.f_rule_singles(ops, contexts=("consumed",))
         texts += F.consuming_singles(ops + ["SMOD", "SAR", "BYTE", "SIGNEXTEND"])
         texts += F.f_exh(2)
     else:
         texts += F.f_mem((2,))
-        texts += F.f_mem((3,), deltas=[0, 1, 32], ops=("MSTORE", "MLOAD", "MSTORE8", "KECCAK256"))
+        texts += F.f_mem((3,), deltas=[0, 1, 32], ops=("MSTORE", "MLOAD", "MSTORE8", "KECCAK256"))[::3]
+        texts += F.f_mem_byte_in_word(deltas=(0, 1, 16, 31, 32, 33))
         texts += F.f_mem((3,), deltas=[0, 32], ops=("SSTORE", "SLOAD"))
         texts += F.f_mem((2,), deltas=[0, 1, 32], mixed=True)
         texts += F.f_mem((4,), deltas=[0, 16], ops=("MSTORE", "MLOAD"))
@@ -146,7 +148,7 @@ def main():
         elif o["split"] == "storage":
             jobs = [("text", t, max_rel) for i, t in enumerate(texts) if i % 3 == k % 3] if o["criteria"] == "gas" else []
         else:
-            g = 1 if (o["rules"] and o["criteria"] == "gas") or tier == "thorough" else 2
+            g = 1 if (o["rules"] and o["criteria"] == "gas") else 2
             jobs = [("text", t, max_rel) for i, t in enumerate(texts) if i % g == k % g]
         ndoc = 2 if tier == "quick" else 8
         for d in [docs[(k * ndoc + i) % len(docs)] for i in range(ndoc)]:
